@@ -390,7 +390,14 @@ fn step<M: GuestMemory + RegionPtrs>(
         None => false,
     };
     let (want, want_buf) = expect(l, &mut model, op, aligned_ok);
-    let (got, got_buf) = exec(m, op);
+    let describe = || {
+        (
+            format!("C03/{}/{:?}", imp, op.route),
+            format!("layout {} op {:?} addr {:#x} len {}", l.describe(), op.route, op.addr, op.len),
+            json!({"impl": imp, "layout": l.regs, "history": hist.iter().map(|o| o.to_json()).collect::<Vec<_>>(), "op": op.to_json(), "state_before": hex(&state.flat())}),
+        )
+    };
+    let (got, got_buf) = crate::crash::guarded(ctx, &describe, || exec(m, op))?;
     let after = dump(m, l);
     let wraps = op.addr as u128 + op.len as u128 > (1u128 << 64);
     let sub = if wraps { "/wraps-past-2^64" } else { "" };
@@ -509,7 +516,7 @@ pub fn run(tier: Tier, replay: Option<String>) -> i32 {
     if xen {
         ctx.assume("Xen build: regions are MmapXenFlags::UNIX mappings (the only Xen flavour that needs no device)");
     }
-    let u = if tier.thorough() { 7 } else { 6 };
+    let u = if tier.thorough() { 8 } else { 7 };
     if let Some(r) = ctx.replay_of.clone() {
         let c = &r["case"];
         let regs: Vec<(u64, u64)> = c["layout"].as_array().map(|a| a.iter().filter_map(|p| Some((p[0].as_u64()?, p[1].as_u64()?))).collect()).unwrap_or_default();
@@ -582,7 +589,7 @@ pub fn run(tier: Tier, replay: Option<String>) -> i32 {
             s.spawn(move || {
                 let l = Layout::from_cells(base, &c);
                 let ranges: Vec<(u64, usize)> = vec![(base + 1, 2), (base, 4), (base + 3, 3), (base + 5, 1), (base + 2, 1), (base + 1, 4)];
-                let depth = if tier.thorough() { 3 } else { 2 };
+                let depth = if tier.thorough() { 4 } else { 3 };
                 let m = build_mmap(&l).unwrap();
                 histories(ctx, anon, &m, &l, &ranges, depth);
                 if !xen {
